@@ -42,7 +42,26 @@ func main() {
 	taskFile := fs.String("task", "", "sub-process mode: task json")
 	resultFile := fs.String("result", "", "sub-process mode: result json")
 	fs.IntVar(&flagGomaxprocs, "gomaxprocs", 0, "race pass: GOMAXPROCS")
+	replay := fs.String("replay", "", "a replays/<ID>-<n>.json file written by an earlier run: re-run the check at its tier and seed and report whether that violation shows again")
 	_ = fs.Parse(os.Args[2:])
+	replayKey := ""
+	if *replay != "" {
+		var rec struct {
+			Property, Key, Tier string
+			Seed                int64
+		}
+		b, err := os.ReadFile(*replay)
+		if err != nil || json.Unmarshal(b, &rec) != nil || rec.Key == "" {
+			fmt.Fprintf(os.Stderr, "cannot read the replay file %s\n", *replay)
+			os.Exit(2)
+		}
+		if rec.Property != id {
+			fmt.Fprintf(os.Stderr, "the replay file belongs to %s, not to %s\n", rec.Property, id)
+			os.Exit(2)
+		}
+		replayKey, *tier = rec.Key, rec.Tier
+		_ = os.Setenv("VERIF_SEED", strconv.FormatInt(rec.Seed, 10))
+	}
 	if *taskFile != "" {
 		os.Exit(subprocess(id, *taskFile, *resultFile))
 	}
@@ -63,7 +82,7 @@ func main() {
 	if dn, err := os.OpenFile(os.DevNull, os.O_WRONLY, 0); err == nil {
 		os.Stdout = dn
 	}
-	ctx := &common.Ctx{ID: id, Tier: *tier, Seed: seed, Work: *work, Start: time.Now(), Out: out}
+	ctx := &common.Ctx{ID: id, Tier: *tier, Seed: seed, Work: *work, Start: time.Now(), Out: out, ReplayKey: replayKey}
 	if *budget == 0 {
 		if *tier == "quick" {
 			*budget = 150 * time.Second
@@ -81,7 +100,7 @@ func main() {
 		ctx.Work = d
 		defer os.RemoveAll(d)
 	}
-	if olds, _ := filepath.Glob(filepath.Join(common.Root, "replays", id+"-*.json")); *tier != "" {
+	if olds, _ := filepath.Glob(filepath.Join(common.Root, "replays", id+"-*.json")); *tier != "" && replayKey == "" {
 		for _, o := range olds {
 			_ = os.Remove(o)
 		}
